@@ -103,7 +103,7 @@ class Transformer(BaseEstimator, TransformerMixin, ABC):
             else:
                 # Make sure the DataArray has some name so we can create a string mapping
                 if data.name is None:
-                    data.name = key
+                    data = data.rename(key)
                 data_vars[data.name] = data
             ds = xr.Dataset(data_vars=data_vars, coords=coords)
             name_map = data.name
